@@ -61,10 +61,15 @@ def _finish(w, window, blk, mask_index):
     return [x * blk["mix"] for x in w]
 
 
+OCCURRENCES = None      # when set to a list, every occurrence is recorded as (row, [(col, weight)]) for the EM reference
+
+
 def _emit(out, row, windows, weights, normalize_windows, n_cols):
     total = sum(sum(w) for w in weights) if normalize_windows else 0.0
     if total <= 0:
         total = 1.0
+    if OCCURRENCES is not None:
+        OCCURRENCES.append((row, [(c + b * n_cols, x) for b, (win, w) in enumerate(zip(windows, weights)) for c, x in zip(win, w) if x > 0]))
     for b, (win, w) in enumerate(zip(windows, weights)):
         for c, x in zip(win, w):
             v = x / total
@@ -135,6 +140,8 @@ def multi_ref(docs, blocks, normalize_windows, n_cols, mask_index=None):
     for doc in docs:
         for d_i, mset in enumerate(doc):
             for w_i, t in enumerate(mset):
+                if mask_index is not None and t == mask_index:
+                    continue                  # a nullified mask contributes nothing, as a target either
                 wins, ws = [], []
                 for blk in blocks:
                     r = blk["radius"](0)
